@@ -6,7 +6,9 @@
 // Supported Go subset (enough for the straight-line / if-chain accessors):
 //
 //	return e | x := e | x = e | var x int | x++ |
-//	if c { assignments } | if c { …; return e } | for c { x++ }
+//	if c { assignments } | if c { …; return e } | for c { x++ } |
+//	if x := e; c { …; return e } | if c { loops } else { loops }  (branches assigning locals) |
+//	for x = k; c; x++ { a op= e }  (forInc2) | for x = range slice { if c { a op= e; break } }  (rangeBreak2)
 //
 // expressions: int literals, locals, + - * % & comparisons && || !, len(slice),
 // slice[i], receiver fields, calls of other translated methods, minInt/maxInt,
@@ -14,9 +16,9 @@
 //
 // An operation that can panic (slice index, %, a call of a method that can panic)
 // is sequenced in the Option monad exactly where Go evaluates it, so a Go panic is
-// `none`.  Accessors outside the subset (Polygon.Edge / Chain / ChainPosition: loops that
-// update two variables, range-with-break) are reported as irregular and left to the
-// behavioural correspondence.
+// `none`.  Accessors outside the subset are reported as irregular and left to the
+// behavioural correspondence (none at present: Polygon.Edge / Chain / ChainPosition are
+// translated with the two-variable loop primitives of S2/ShapesLoops.lean).
 //
 // usage: translator_c06 -repo /repo -out lean/S2/Generated [-facts facts.json]
 package main
@@ -46,6 +48,7 @@ type typeSpec struct {
 	lens    map[string]string // source text of slice -> Lean length (Int)
 	index   map[string]string // source text of slice -> Lean indexing function (Int -> Option _)
 	fields  map[string]string // field -> Lean expr
+	nils    map[string]string // source text of slice -> Lean Prop "slice != nil"
 	methods []string          // in dependency order
 	skip    []string          // known irregular accessors (reported, not translated)
 }
@@ -55,7 +58,7 @@ var specs = []*typeSpec{
 		lens:    map[string]string{"RECV.vertices": "(s.n : Int)"},
 		index:   map[string]string{"RECV.vertices": "vtx s.n"},
 		fields:  map[string]string{"originInside": "s.originInside", "depth": "(s.depth : Int)"},
-		methods: []string{"isEmptyOrFull", "ContainsOrigin", "IsEmpty", "IsFull", "IsHole", "Vertex", "OrientedVertex", "NumEdges", "Edge", "NumChains", "Chain", "ChainEdge", "ChainPosition"}},
+		methods: []string{"isEmptyOrFull", "ContainsOrigin", "IsEmpty", "IsFull", "IsHole", "Vertex", "OrientedVertex", "NumEdges", "Edge", "NumChains", "Chain", "ChainEdge", "ChainPosition", "NumVertices"}},
 	{goType: "Polyline", file: "polyline.go", ns: "Polyline", state: "SeqS",
 		lens:    map[string]string{"*RECV": "(s.n : Int)"},
 		index:   map[string]string{"(*RECV)": "vtx s.n"},
@@ -82,8 +85,8 @@ var specs = []*typeSpec{
 		lens:    map[string]string{"RECV.loops": "(s.loops.length : Int)", "RECV.cumulativeEdges": "s.cumLen"},
 		index:   map[string]string{"RECV.cumulativeEdges": "s.cumAt"},
 		fields:  map[string]string{"numEdges": "s.numEdges"},
-		methods: []string{"NumLoops", "NumEdges", "NumChains", "ChainEdge"},
-		skip:    []string{"Edge", "Chain", "ChainPosition"}},
+		nils:    map[string]string{"RECV.cumulativeEdges": "s.cumulativeEdges ≠ none"},
+		methods: []string{"NumLoops", "NumEdges", "NumChains", "ChainEdge", "Edge", "Chain", "ChainPosition"}},
 	{goType: "edgeVectorShape", file: "edge_vector_shape_test.go", ns: "EdgeVector", state: "SeqS",
 		lens:    map[string]string{"RECV.edges": "(s.n : Int)"},
 		index:   map[string]string{"RECV.edges": "edgeAt s.n"},
@@ -122,6 +125,8 @@ func (m *method) canPanic(n ast.Node) bool {
 			found = true
 		case *ast.ForStmt:
 			found = true
+		case *ast.RangeStmt:
+			found = true
 		case *ast.BinaryExpr:
 			if v.Op == token.REM || v.Op == token.QUO {
 				found = true
@@ -157,6 +162,7 @@ type ctx struct {
 	m    *method
 	tmp  int
 	lets []string // pending prelude lines for the expression being translated
+	tail string   // non-empty: the statement list does not return; it ends with `pure <tail>` (the locals it assigned)
 }
 
 func (c *ctx) fresh() string { c.tmp++; return fmt.Sprintf("t%d", c.tmp) }
@@ -180,6 +186,17 @@ func (c *ctx) lenOf(x ast.Expr) string {
 	if v, ok := c.m.spec.lens[key]; ok {
 		return v
 	}
+	// len(p.Loop(X).vertices)  (Polygon): p.Loop(X) indexes p.loops
+	if sel, ok := x.(*ast.SelectorExpr); ok && sel.Sel.Name == "vertices" && c.m.spec.goType == "Polygon" {
+		if inner, ok := sel.X.(*ast.CallExpr); ok {
+			if isel, ok := inner.Fun.(*ast.SelectorExpr); ok && isel.Sel.Name == "Loop" && len(inner.Args) == 1 {
+				if id, ok := isel.X.(*ast.Ident); ok && id.Name == c.m.recv {
+					lp := c.bind("s.loopAt " + c.atom(inner.Args[0]))
+					return fmt.Sprintf("(%s.n : Int)", lp)
+				}
+			}
+		}
+	}
 	fail("len of unknown slice %s", src(x))
 	return ""
 }
@@ -192,6 +209,15 @@ func (c *ctx) cond(e ast.Expr) string {
 	case *ast.ParenExpr:
 		return "(" + c.cond(v.X) + ")"
 	case *ast.BinaryExpr:
+		if id, ok := v.Y.(*ast.Ident); ok && id.Name == "nil" && (v.Op == token.NEQ || v.Op == token.EQL) {
+			if pr, ok := c.m.spec.nils[c.recvText(src(v.X))]; ok {
+				if v.Op == token.NEQ {
+					return pr
+				}
+				return "¬ (" + pr + ")"
+			}
+			fail("nil test of unknown slice %s", src(v.X))
+		}
 		if op, ok := cmpOps[v.Op]; ok {
 			return fmt.Sprintf("%s %s %s", c.expr(v.X), op, c.expr(v.Y))
 		}
@@ -312,7 +338,14 @@ func (c *ctx) expr(e ast.Expr) string {
 						for _, a := range v.Args {
 							args = append(args, c.atom(a))
 						}
-						call := fmt.Sprintf("Loop.%s %s %s", sel.Sel.Name, lp, strings.Join(args, " "))
+						call := strings.TrimSpace(fmt.Sprintf("Loop.%s %s %s", sel.Sel.Name, lp, strings.Join(args, " ")))
+						if src(lm.decl.Type.Results.List[0].Type) == "int" {
+							// an int-valued Loop method: a plain value, not a vertex label
+							if lm.partial {
+								return c.bind(call)
+							}
+							return "(" + call + ")"
+						}
 						if lm.partial {
 							return fmt.Sprintf("(%s, %s)", li, c.bind(call))
 						}
@@ -353,6 +386,9 @@ func returns(stmts []ast.Stmt) bool {
 func (c *ctx) stmts(list []ast.Stmt, ind string) []string {
 	var out []string
 	if len(list) == 0 {
+		if c.tail != "" {
+			return []string{ind + "pure " + c.tail}
+		}
 		fail("function body falls off the end")
 	}
 	st, rest := list[0], list[1:]
@@ -364,6 +400,9 @@ func (c *ctx) stmts(list []ast.Stmt, ind string) []string {
 	}
 	switch v := st.(type) {
 	case *ast.ReturnStmt:
+		if c.tail != "" {
+			fail("return inside a branch that assigns locals")
+		}
 		if len(v.Results) != 1 {
 			fail("return arity")
 		}
@@ -413,12 +452,44 @@ func (c *ctx) stmts(list []ast.Stmt, ind string) []string {
 		return append(out, c.stmts(rest, ind)...)
 	case *ast.IfStmt:
 		if v.Init != nil {
-			fail("if with init statement")
+			// if x := e; c { … }  ==  x := e; if c { … }   (x is fresh, so widening its scope is harmless)
+			as, ok := v.Init.(*ast.AssignStmt)
+			if !ok || as.Tok != token.DEFINE || len(as.Lhs) != 1 || len(as.Rhs) != 1 {
+				fail("unsupported if-init %s", src(v.Init))
+			}
+			id, ok := as.Lhs[0].(*ast.Ident)
+			if !ok {
+				fail("unsupported if-init %s", src(v.Init))
+			}
+			e := c.expr(as.Rhs[0])
+			c.flush(ind, &out)
+			out = append(out, fmt.Sprintf("%slet %s : Int := %s", ind, id.Name, e))
 		}
 		cd := c.cond(v.Cond)
 		c.flush(ind, &out)
 		if v.Else != nil {
 			eb, ok := v.Else.(*ast.BlockStmt)
+			if ok && !returns(v.Body.List) && !returns(eb.List) {
+				// both branches only assign locals: the if/else yields the tuple of the assigned locals
+				vars := assignedVars(v.Body.List, eb.List)
+				if len(vars) == 0 {
+					fail("if/else without effect")
+				}
+				tup := "(" + strings.Join(vars, ", ") + ")"
+				if len(vars) == 1 {
+					tup = vars[0]
+				}
+				sub1 := &ctx{m: c.m, tmp: c.tmp, tail: tup}
+				b1 := sub1.block(v.Body.List, ind+"    ")
+				sub2 := &ctx{m: c.m, tmp: sub1.tmp, tail: tup}
+				b2 := sub2.block(eb.List, ind+"    ")
+				c.tmp = sub2.tmp
+				out = append(out, fmt.Sprintf("%slet %s ← if %s then", ind, tup, cd))
+				out = append(out, b1...)
+				out = append(out, ind+"  else")
+				out = append(out, b2...)
+				return append(out, c.stmts(rest, ind)...)
+			}
 			if !ok || !returns(v.Body.List) || !returns(eb.List) {
 				fail("if/else whose branches do not both return")
 			}
@@ -453,7 +524,50 @@ func (c *ctx) stmts(list []ast.Stmt, ind string) []string {
 			}
 		}
 		return append(out, c.stmts(rest, ind)...)
+	case *ast.RangeStmt:
+		// for x = range slice { if c { a op= e; break } }
+		x, ok := v.Key.(*ast.Ident)
+		if !ok || v.Value != nil || v.Tok != token.ASSIGN || len(v.Body.List) != 1 {
+			fail("unsupported range loop")
+		}
+		ifs, ok := v.Body.List[0].(*ast.IfStmt)
+		if !ok || ifs.Init != nil || ifs.Else != nil || len(ifs.Body.List) != 2 {
+			fail("unsupported range body")
+		}
+		br, ok := ifs.Body.List[1].(*ast.BranchStmt)
+		if !ok || br.Tok != token.BREAK || br.Label != nil {
+			fail("unsupported range body")
+		}
+		a, stepE := c.accStep(ifs.Body.List[0])
+		n := c.lenOf(v.X)
+		condE := c.condOpt(ifs.Cond)
+		out = append(out, fmt.Sprintf("%slet (%s, %s) ← rangeBreak2 %s (fun %s %s => %s) (fun %s %s => %s) %s %s",
+			ind, x.Name, a, n, x.Name, a, condE, x.Name, a, stepE, x.Name, a))
+		return append(out, c.stmts(rest, ind)...)
 	case *ast.ForStmt:
+		if v.Init != nil && v.Post != nil && v.Cond != nil && len(v.Body.List) == 1 {
+			// for x = k; c; x++ { a op= e }
+			is, ok := v.Init.(*ast.AssignStmt)
+			if !ok || len(is.Lhs) != 1 || len(is.Rhs) != 1 || (is.Tok != token.ASSIGN && is.Tok != token.DEFINE) {
+				fail("unsupported for-init %s", src(v.Init))
+			}
+			x, ok := is.Lhs[0].(*ast.Ident)
+			if !ok {
+				fail("unsupported for-init %s", src(v.Init))
+			}
+			post, ok := v.Post.(*ast.IncDecStmt)
+			if !ok || post.Tok != token.INC || src(post.X) != x.Name {
+				fail("unsupported for-post %s", src(v.Post))
+			}
+			x0 := c.expr(is.Rhs[0])
+			c.flush(ind, &out)
+			out = append(out, fmt.Sprintf("%slet %s : Int := %s", ind, x.Name, x0))
+			a, stepE := c.accStep(v.Body.List[0])
+			condE := c.condOpt(v.Cond)
+			out = append(out, fmt.Sprintf("%slet (%s, %s) ← forInc2 (fun %s %s => %s) (fun %s %s => %s) s.fuel %s %s",
+				ind, x.Name, a, x.Name, a, condE, x.Name, a, stepE, x.Name, a))
+			return append(out, c.stmts(rest, ind)...)
+		}
 		if v.Init != nil || v.Post != nil || v.Cond == nil || len(v.Body.List) != 1 {
 			fail("unsupported for loop")
 		}
@@ -473,6 +587,98 @@ func (c *ctx) stmts(list []ast.Stmt, ind string) []string {
 	}
 	fail("unsupported statement %s", src(st))
 	return nil
+}
+
+// condOpt translates a loop condition to a Lean `Option Bool`; a panicking right operand of `||` / `&&`
+// is evaluated only when Go evaluates it.
+func (c *ctx) condOpt(e ast.Expr) string {
+	sub := &ctx{m: c.m, tmp: c.tmp + 100}
+	if be, ok := e.(*ast.BinaryExpr); ok && (be.Op == token.LOR || be.Op == token.LAND) {
+		l := sub.cond(be.X)
+		pre := ""
+		if len(sub.lets) > 0 {
+			pre = strings.Join(sub.lets, "; ") + "; "
+			sub.lets = nil
+		}
+		r := sub.condOpt(be.Y)
+		if be.Op == token.LOR {
+			return fmt.Sprintf("do %sif %s then pure true else (%s)", pre, l, r)
+		}
+		return fmt.Sprintf("do %sif %s then (%s) else pure false", pre, l, r)
+	}
+	cd := sub.cond(e)
+	pre := ""
+	if len(sub.lets) > 0 {
+		pre = strings.Join(sub.lets, "; ") + "; "
+	}
+	return fmt.Sprintf("do %spure (decide (%s))", pre, cd)
+}
+
+// accStep translates the loop body `a op= e` to (a, Lean `Option Int` giving the new a).
+func (c *ctx) accStep(st ast.Stmt) (string, string) {
+	as, ok := st.(*ast.AssignStmt)
+	if !ok || len(as.Lhs) != 1 || len(as.Rhs) != 1 {
+		fail("unsupported loop body %s", src(st))
+	}
+	id, ok := as.Lhs[0].(*ast.Ident)
+	if !ok {
+		fail("unsupported loop body %s", src(st))
+	}
+	sub := &ctx{m: c.m, tmp: c.tmp + 200}
+	e := sub.expr(as.Rhs[0])
+	switch as.Tok {
+	case token.ASSIGN:
+	case token.ADD_ASSIGN:
+		e = fmt.Sprintf("(%s + %s)", id.Name, e)
+	case token.SUB_ASSIGN:
+		e = fmt.Sprintf("(%s - %s)", id.Name, e)
+	default:
+		fail("unsupported loop body %s", src(st))
+	}
+	pre := ""
+	if len(sub.lets) > 0 {
+		pre = strings.Join(sub.lets, "; ") + "; "
+	}
+	return id.Name, fmt.Sprintf("do %spure %s", pre, e)
+}
+
+// assignedVars lists, in order of first appearance, the already declared locals assigned in the blocks.
+func assignedVars(blocks ...[]ast.Stmt) []string {
+	var vars []string
+	seen := map[string]bool{}
+	declared := map[string]bool{}
+	add := func(e ast.Expr) {
+		if id, ok := e.(*ast.Ident); ok && !seen[id.Name] && !declared[id.Name] {
+			seen[id.Name] = true
+			vars = append(vars, id.Name)
+		}
+	}
+	for _, b := range blocks {
+		for _, st := range b {
+			ast.Inspect(st, func(x ast.Node) bool {
+				switch v := x.(type) {
+				case *ast.AssignStmt:
+					for _, l := range v.Lhs {
+						if v.Tok == token.DEFINE {
+							if id, ok := l.(*ast.Ident); ok {
+								declared[id.Name] = true
+							}
+						} else {
+							add(l)
+						}
+					}
+				case *ast.IncDecStmt:
+					add(v.X)
+				case *ast.RangeStmt:
+					if v.Tok == token.ASSIGN && v.Key != nil {
+						add(v.Key)
+					}
+				}
+				return true
+			})
+		}
+	}
+	return vars
 }
 
 func (c *ctx) block(list []ast.Stmt, ind string) []string {
@@ -556,8 +762,10 @@ func main() {
 		}
 	}
 	// Polygon labels are pairs
-	if m := methods["Polygon.ChainEdge"]; m != nil {
-		m.ret = "(Int × Int) × (Int × Int)"
+	for _, n := range []string{"Polygon.ChainEdge", "Polygon.Edge"} {
+		if m := methods[n]; m != nil {
+			m.ret = "(Int × Int) × (Int × Int)"
+		}
 	}
 	// partiality fixpoint
 	for changed := true; changed; {
@@ -570,7 +778,7 @@ func main() {
 		}
 	}
 	var b strings.Builder
-	b.WriteString("/-\n  GENERATED by translator_c06 from s2/{loop,polygon,polyline,lax_loop,lax_polygon,lax_polyline,point_vector,\n  edge_vector_shape_test}.go — do not edit.  The index arithmetic of the Shape accessors, expression by\n  expression; Go `int` = `Int`, a Go panic = `none`.  See S2/ShapesBase.lean for the primitives.\n-/\nimport S2.ShapesBase\nset_option linter.unusedVariables false\nnamespace S2\nnamespace Generated\nopen S2.Shapes\n")
+	b.WriteString("/-\n  GENERATED by translator_c06 from s2/{loop,polygon,polyline,lax_loop,lax_polygon,lax_polyline,point_vector,\n  edge_vector_shape_test}.go — do not edit.  The index arithmetic of the Shape accessors, expression by\n  expression; Go `int` = `Int`, a Go panic = `none`.  See S2/ShapesBase.lean, S2/ShapesLoops.lean for the primitives.\n-/\nimport S2.ShapesLoops\nset_option linter.unusedVariables false\nnamespace S2\nnamespace Generated\nopen S2.Shapes\n")
 	type fact struct {
 		Name    string `json:"name"`
 		Status  string `json:"status"`
